@@ -244,12 +244,16 @@ def enc_follow(full, depth):
 def diff_paths(a, b):
     return sorted(k for k in set(a) | set(b) if a.get(k) != b.get(k))
 
-def oracle(prev, cur, pats, produced=()):
+def oracle(prev, cur, pats, produced=(), prev_pats=None):
     """prev/cur: (lsnap, rsnap). Returns (must_T, must_S, classification hints). True: must run again, False: must not,
     None: the property does not say (only something outside the tree, reached through a link, or the root itself, changed).
     produced: relative paths of directories that are OUTPUTS of mkdir commands of the description: their own stat record
     is the producing command's business (its result stays valid while the directory exists), so only their type counts."""
-    L0r, R0r = visible(prev[0], pats), visible(prev[1], pats)
+    # each build is judged with the patterns its description had: after an edit of the patterns, entries that became
+    # visible count as added and entries that became hidden as removed
+    edited = prev_pats is not None and list(prev_pats) != list(pats)
+    pp = prev_pats if edited else pats
+    L0r, R0r = visible(prev[0], pp), visible(prev[1], pp)
     L1r, R1r = visible(cur[0], pats), visible(cur[1], pats)
     def norm(S):
         return {k: ((v[0],) if (k in produced and v != "missing" and v[0] == "d") else v) for k, v in S.items()}
@@ -257,13 +261,17 @@ def oracle(prev, cur, pats, produced=()):
     D = [k for k in diff_paths(L0, L1) if k != ""]
     same_all = (L0 == L1 and R0 == R1)
     must_T = True if D else (False if same_all else None)
+    if edited and must_T is False:
+        must_T = None          # the description itself was edited: a re-run is allowed, not demanded, when the visible set is the same
     sh = lambda s: {k: (v[0] if v != "missing" else "missing") for k, v in s.items()}
     shR0, shR1 = sh(R0r), sh(R1r)
     # an entry that was itself edited (its lstat record differs) and resolves to another type now: a retargeted link
     SDR = [k for k in diff_paths(L0r, L1r) if k in L0r and k in L1r and shR0.get(k) != shR1.get(k)]
     SD = sorted(set(diff_paths(sh(L0r), sh(L1r))) | set(SDR))
     must_S = True if SD else (False if shR0 == shR1 else None)
-    hints = dict(changed=D, shape_changed=SD)
+    if edited and must_S is False:
+        must_S = None
+    hints = dict(changed=D, shape_changed=SD, patterns_edited=edited)
     # classification of the changed paths (for the finding key of a missed change): which known finding, if any,
     # explains that this path's change is not seen
     def only_mode(k):
@@ -288,7 +296,7 @@ def oracle(prev, cur, pats, produced=()):
     hints["file_root"] = L0r.get("", ("?",))[0] != "d" and L1r.get("", ("?",))[0] != "d" and "" in L0r and "" in L1r
     # entries that appeared while the record of their directory stayed the same: a stored filtered listing does not have them
     Draw = [k for k in diff_paths(L0r, L1r) if k != ""]
-    hints["added_unseen"] = [k for k in Draw if k not in L0r and parent_unchanged(k)] if pats else []
+    hints["added_unseen"] = [k for k in Draw if k not in L0r and parent_unchanged(k)] if (pats and not edited) else []
     hints["removed"] = [k for k in Draw if k not in L1r]
     hints["removed_parent_unchanged"] = [k for k in Draw if k not in L1r and parent_of(k) in L1r and parent_unchanged(k)]
     hints["relisted_dirs"] = [k for k in Draw if k in L0r and k in L1r]
@@ -637,10 +645,13 @@ def run_scenario(chk, llb, model, sc, idx, generate=None):
     if sc["init"] is not None:
         sb.materialise(sb.root, sc["init"])
     produced = list(sc.get("produced", []))
+    sb.cur_pats = pats
     sb.protected = set(os.path.join(sb.root, r) if r else sb.root for r in produced)
     pT, pS = write_build(sb, pats, sc.get("absolute", False), sc.get("tspell", "slash"), sc.get("sspell", "is-directory-structure"), produced)
     records = []
     encs = []
+    pats_used = []
+    prev_pats = pats
     nsteps = sc.get("nsteps", len(sc["steps"]))
     k = 0
     prev = None
@@ -652,12 +663,20 @@ def run_scenario(chk, llb, model, sc, idx, generate=None):
                 break
             for op in sc["steps"][k - 1]["ops"]:
                 sb.apply(op)
+            if "pats" in sc["steps"][k - 1] and sc["steps"][k - 1]["pats"] != pats:
+                prev_pats, pats = pats, list(sc["steps"][k - 1]["pats"])        # an edit of the description
+                sb.cur_pats = pats
+                write_build(sb, pats, sc.get("absolute", False), sc.get("tspell", "slash"), sc.get("sspell", "is-directory-structure"), produced)
+            else:
+                prev_pats = pats
+        pats_used.append(pats)
         snaps, enc = observe_disk(sb)
         rc, ranT, ranS, log = build(llb, sb)
         encs.append(enc)
         rec = dict(step=k, labels=(sc["steps"][k - 1]["labels"] if k > 0 else ["initial build"]), rc=rc, ranT=ranT, ranS=ranS, log=log if rc != 0 else "")
         if k > 0:
-            rec["must_T"], rec["must_S"], rec["hints"] = oracle(prev, snaps, pats, set(produced))
+            rec["must_T"], rec["must_S"], rec["hints"] = oracle(prev, snaps, pats, set(produced), prev_pats)
+            rec["patterns"] = pats
         records.append(rec)
         # the baseline of the next step is what is on disk AFTER this build (mkdir commands may have created directories)
         prev = observe_disk(sb)[0] if produced else snaps
@@ -670,8 +689,8 @@ def run_scenario(chk, llb, model, sc, idx, generate=None):
         for rec in records[1:]:
             rec["model_T"] = rec["model_S"] = None
         return records
-    fl = "." if not pats else ",".join(hx(p.encode()) for p in pats)
-    reqs = ["scenario %s %s %s" % (fl, hx(p.encode()), " ".join(encs)) for p in (pT, pS)]
+    fl = lambda ps: "." if not ps else ",".join(hx(p.encode()) for p in ps)
+    reqs = ["scenariop %s %s" % (hx(p.encode()), " ".join(fl(ps) + "@" + e for ps, e in zip(pats_used, encs))) for p in (pT, pS)]
     rc, out, err = vlib.run_lines(model, reqs, timeout=300)
     if rc != 0 or len(out) != 2 or any(o.startswith(("ERR", "EXC")) for o in out):
         raise RuntimeError("model failed on scenario %d: rc=%s out=%r err=%s" % (idx, rc, out[:2], err[-500:]))
@@ -703,6 +722,9 @@ def judge(chk, sc, records, idx):
         unlisted = False
         fam = sc.get("family", "core")
         h = rec["hints"]
+        spats = rec.get("patterns", sc["pats"])
+        if h.get("patterns_edited"):
+            unseen.clear(); ghosts.clear()      # new keys: every listing is computed afresh
         def stale_in(table, k):
             parts = k.split("/")
             return any(parts[j] in table.get("/".join(parts[:j]), ()) for j in range(len(parts)))
@@ -719,15 +741,15 @@ def judge(chk, sc, records, idx):
         def stale(k):
             # an entry that was never in the stored listing: changes beneath it, and its removal, cannot be seen
             return stale_in(before if k in h["removed"] else unseen, k)
-        up = lambda table: {k: (c or ("stale" if (sc["pats"] and stale(k)) else None)) for k, c in table.items()}
+        up = lambda table: {k: (c or ("stale" if (spats and stale(k)) else None)) for k, c in table.items()}
         cats = dict(tree=up(h["cat_T"]), structure=up(h["cat_S"]))
         rec["cats"] = cats
         for k in h["removed"]:
             par, name = split(k)
             unseen.get(par, set()).discard(name)
-            if sc["pats"] and k in h["removed_parent_unchanged"]:
+            if spats and k in h["removed_parent_unchanged"]:
                 ghosts.setdefault(par, set()).add(name)
-        key = (fam, bool(sc["pats"]), tuple(rec["labels"]), rec["ranT"], rec["ranS"])
+        key = (fam, bool(spats), tuple(rec["labels"]), rec["ranT"], rec["ranS"])
         chk.count(key if (rec["must_T"] or rec["must_S"]) else None)
         if rec["rc"] != 0:
             unlisted |= chk.violation("build-failed", "llbuild exited with %d during an incremental build" % rec["rc"], rp(rec), found_input=True, broken="c12 oracle")
@@ -740,7 +762,7 @@ def judge(chk, sc, records, idx):
                 key_ = "%s-spurious-rerun" % cmd
                 if relisted:
                     key_ = "filtered-listing-stale-late-%s" % cmd      # finding D3 seen late: the entry was added in an earlier step
-                if cmd == "structure" and sc["pats"] and rec["hints"]["file_root"]:
+                if cmd == "structure" and spats and rec["hints"]["file_root"]:
                     key_ += "-file-root-filtered"
                 what = ("the command with the directory-%s input ran again although " % cmd) + ("nothing beneath the directory changed" if cmd == "tree" else "no entry was added, removed or changed type") + " (%s)" % "; ".join(rec["labels"])
                 unlisted |= chk.violation(key_, what, rp(rec, dict(command=cmd)), found_input=True, broken="c12 oracle (stable) on llbuild buildsystem build")
@@ -848,6 +870,21 @@ def corpus():
             dict(labels=["add-sibling-link (current -> v1 at the root)"], ops=[dict(op="add", path="tree/current", spec=dict(k="l", to="v1"), dir_t=T0 + 954 * STEP_NS)]),
             dict(labels=["retarget-sibling-link (root: directory -> file)"], ops=[dict(op="relink", path="tree/current", to="README", t=T0 + 955 * STEP_NS, dir_t=T0 + 956 * STEP_NS)]),
             dict(labels=["rm (the sibling link at the root)"], ops=[dict(op="rm", path="tree/current", dir_t=T0 + 957 * STEP_NS)])]))
+    # 403a739 (repaired; seeded C12-7 reverts it): the description's patterns are edited between builds
+    out.append(dict(name="patterns-edited", family="patterns", pats=["*.tmp"],
+                    init=d(("a.txt", f("a")), ("x.tmp", f("t")), ("k", f("k")), ("sub", d(("b", f("b")), ("y.tmp", f("t"))))), steps=[
+        dict(labels=["excluded-content (x.tmp)"], ops=[dict(op="write", path="tree/x.tmp", data="tt", t=T0 + 960 * STEP_NS)]),
+        dict(labels=["patterns -> [*.nothing]: x.tmp, sub/y.tmp become visible"], ops=[], pats=["*.nothing"]),
+        dict(labels=["content (x.tmp, visible now)"], ops=[dict(op="write", path="tree/x.tmp", data="ttt", t=T0 + 961 * STEP_NS)]),
+        dict(labels=["content (sub/y.tmp, visible now)"], ops=[dict(op="write", path="tree/sub/y.tmp", data="ttt", t=T0 + 962 * STEP_NS)]),
+        dict(labels=["patterns -> the same list"], ops=[], pats=["*.nothing"]),
+        dict(labels=["patterns -> [*.nothing, k]: k becomes hidden"], ops=[], pats=["*.nothing", "k"]),
+        dict(labels=["excluded-content (k, hidden now)"], ops=[dict(op="write", path="tree/k", data="kk", t=T0 + 963 * STEP_NS)]),
+        dict(labels=["patterns -> none"], ops=[], pats=[]),
+        dict(labels=["content (k, visible again)"], ops=[dict(op="write", path="tree/k", data="kkk", t=T0 + 964 * STEP_NS)]),
+        dict(labels=["patterns -> [*.tmp]: x.tmp, sub/y.tmp hidden again"], ops=[], pats=["*.tmp"]),
+        dict(labels=["excluded-content (sub/y.tmp, hidden again)"], ops=[dict(op="write", path="tree/sub/y.tmp", data="tttt", t=T0 + 965 * STEP_NS)]),
+        dict(labels=["content (a.txt)"], ops=[dict(op="write", path="tree/a.txt", data="aa", t=T0 + 966 * STEP_NS)])]))
     # D1 (known): chmod only
     out.append(dict(name="chmod-only", family="mode", pats=[], init=d(("a.txt", f()), ("sub", d(("b", f())))), steps=[
         dict(labels=["chmod"], ops=[dict(op="chmod", path="tree/sub/b", mode=0o600)]),
@@ -929,16 +966,36 @@ def gen_scenario(rng, family, pats, idx):
         sc["init"]["c"] = [e for e in sc["init"]["c"] if e[0] not in ("k", "lk", "zz")] + [["k", dict(k="f", data="target")], ["lk", dict(k="l", to="k")]]
     return sc
 
-def make_generator(rng, family, pats):
+def make_generator(rng, family, pats0):
     def generate(sb, k):
         ops, labels = [], []
+        pats = getattr(sb, "cur_pats", pats0)
+        if family == "patterns" and rng.random() < 0.5:
+            # an edit of the description: other patterns, one more pattern, none at all, or the same list again
+            choice = rng.random()
+            if choice < 0.2:
+                new = list(pats)
+            elif choice < 0.4:
+                new = []
+            elif choice < 0.6:
+                new = list(pats) + [rng.choice([q for q in ["k", "*.c", "skip?", ".*", "zz*"] if q not in pats])]
+            elif choice < 0.75:
+                new = ["*.nothing"]
+            else:
+                new = list(rng.choice(PATTERN_SETS))
+            step = dict(ops=[], labels=["patterns -> %s" % json.dumps(new)], pats=new)
+            if rng.random() < 0.4:
+                e = gen_edit(rng, sb, "core", pats)
+                if e is not None:
+                    sb.apply(e[0]); step["ops"].append(dict(e[0])); step["labels"].append(e[1])
+            return step
         if rng.random() < 0.15 or (k == 1 and rng.random() < 0.3):
             return dict(ops=[], labels=["nothing"])
         n = 1 if rng.random() < 0.7 else rng.randint(2, 3)
         fam = family
         for _ in range(n):
             for attempt in range(6):
-                f = "core" if fam == "produced" else (fam if (fam in ("core",) or rng.random() < 0.75) else "core")
+                f = "core" if fam in ("produced", "patterns") else (fam if (fam in ("core",) or rng.random() < 0.75) else "core")
                 e = gen_edit(rng, sb, f, pats)
                 if e is not None:
                     break
@@ -971,9 +1028,9 @@ def run(chk):
     plan = []
     n = chk.n(60, 900)
     for i in range(n):
-        r = i % 12
-        family = "core" if r < 6 else ("mode", "stale", "symlink", "root", "produced", "produced")[r - 6]
-        pats = rng.choice(PATTERN_SETS) if (family == "stale" or (family != "symlink" and rng.random() < 0.45)) else []
+        r = i % 14
+        family = "core" if r < 6 else ("mode", "stale", "symlink", "root", "produced", "produced", "patterns", "patterns")[r - 6]
+        pats = rng.choice(PATTERN_SETS) if (family == "stale" or (family == "patterns" and rng.random() < 0.8) or (family != "symlink" and rng.random() < 0.45)) else []
         plan.append((family, pats))
     for family, pats in plan:
         sc = gen_scenario(rng, family, pats, idx)
@@ -1023,6 +1080,8 @@ def run_scenario_live(chk, llb, model, sc, idx, gen):
         step = gen(sb, k)
         step = dict(step)
         live = dict(ops=[], labels=step["labels"], recorded_ops=step["ops"])   # already applied
+        if "pats" in step:
+            live["pats"] = step["pats"]
         return live
     records = run_scenario(chk, llb, model, sc, idx, generate=g)
     # store the replayable form
